@@ -408,6 +408,7 @@ func (pc *PathConds) walk(f *Fn, list []ast.Stmt, c *Formula) (*Formula, error) 
 			if s.Init != nil {
 				pc.Cond[s.Init] = c
 			}
+			pc.Cond[s] = c // the condition under which the test itself is evaluated
 			cond := &Formula{Op: "atom", Atom: s.Cond}
 			ft, err := pc.walk(f, s.Body.List, fAnd(c, cond))
 			if err != nil {
